@@ -230,9 +230,12 @@ class SAMIReader(BaseReader):
                 caption = Caption(start, end, self.line, styles, caption_layout)
                 captions.append(caption)
 
-        if captions and captions[-1].end == 0:
-            # Arbitrarily make this last 4 seconds. Not ideal...
-            captions[-1].end = (milliseconds + 4000) * 1000
+        # Arbitrarily make the last captions (every p element of the last SYNC)
+        # last 4 seconds. Not ideal...
+        for caption in reversed(captions):
+            if caption.end != 0:
+                break
+            caption.end = (milliseconds + 4000) * 1000
 
         return captions
 
